@@ -199,7 +199,13 @@ impl SortedWritesTable {
         next_ts: Value,
         exec_state: &mut ExecutionState,
     ) -> bool {
+        #[cfg(not(feature = "verif-hooks"))]
         const STEP_SIZE: usize = 2048;
+        #[cfg(feature = "verif-hooks")]
+        #[allow(non_snake_case)]
+        let STEP_SIZE: usize = egglog_concurrency::verif::knob("rebuild_step_size")
+            .map(|v| (v as usize).max(1))
+            .unwrap_or(2048);
         if parallelize_rebuild(self.data.next_row().index()) {
             let max_row = self.data.next_row().index();
             let starts = (0..max_row).step_by(STEP_SIZE).collect::<Vec<_>>();
